@@ -719,8 +719,10 @@ class CacheWorld(object):
     """Run until the writer is idle and no buffered input remains."""
     s = self.s
     self.final_phase = True
-    lag = self.settings.MIN_TIMESTAMP_LAG or 0
-    deadline = s.now + 120.0 + 2 * lag
+    lag = (self.settings.MIN_TIMESTAMP_LAG or 0) if self.strategy == 'timesorted' else 0
+    # with the daemon's own reporting on, every virtual second costs traced work: a
+    # shorter settling period is enough (the writer drains within a few passes)
+    deadline = s.now + (30.0 if self.settings.CARBON_METRIC_INTERVAL else 120.0) + 2 * lag
     for c in self.conns:
       if c['pending'] and c['t'].disconnected:
         c['pending'] = []
